@@ -78,7 +78,9 @@ Definition zmax_list (d : Z) (l : list Z) : Z := fold_left Z.max l d.
 Inductive pop :=
 | PK (evs : list (N * N * pbts))      (* (operator index the key routes to, event id, timestamp) *)
 | PW
-| PB.                                  (* checkpoint barrier (any other broadcast) *)
+| PB                                   (* checkpoint barrier (any other broadcast) *)
+| PA.                                  (* a (further) split assignment handled by the event loop: no output, and the
+                                          watermarker is kept - the runner's watermark survives re-assignments *)
 
 Inductive sent :=
 | SendK (op : N) (id : N) (p : pbts)
@@ -100,6 +102,7 @@ Fixpoint pipe_run (w : wmk) (ops : list pop) : list sent :=
   | PK evs :: r => let '(w1, out) := pipe_keyed w evs in out ++ pipe_run w1 r
   | PW :: r => SendW (pb_new (wm_current w)) :: pipe_run w r
   | PB :: r => SendB :: pipe_run w r
+  | PA :: r => pipe_run w r
   end.
 
 (* what operator j receives, in order *)
